@@ -19,9 +19,9 @@ def obligations(tier: str) -> list[Ob]:
             bounds={"base schemas": 6, "required": "both", "enum style": "both"},
         ),
         harness_ob(
-            "single_reference_wrappers", "C20_equiv.py", tier, funcs=["schema_ref_shares_one_class", "component_alias_equals_direct_reference"], timeout=330 if q else 900, cpus=2,
+            "single_reference_wrappers", "C20_equiv.py", tier, funcs=["schema_ref_shares_one_class", "component_alias_equals_direct_reference", "wrapper_and_bare_reference_agree"], timeout=330 if q else 900, cpus=2,
             encoded=["openapi_python_client.parser.properties:property_from_data", "openapi_python_client.parser.properties:_property_from_ref"],
-            bounds={"wrappers": "bare $ref / allOf / oneOf / anyOf", "target kinds": 3},
+            bounds={"wrappers": "bare $ref / allOf / oneOf / anyOf", "target kinds": 3, "components with a default of their own": 6},
         ),
         harness_ob(
             "object_notations", "C17_objects.py", tier, timeout=200 if q else 600, cpus=4,
